@@ -30,6 +30,7 @@ RULES = {
     "R10.3": "restore and load_checkpoint follow the read protocol; clean failures (FileNotFoundError / ValueError) precede instantiation / manager.restore",
     "R10.4": "each restore() override is assigned to the config key of the same meaning under `is not None`; the keys exist in all solver configs",
     "R10.5": "Solver._setup_config stores problem.config into self.config.problem when a problem instance is given",
+    "R10.8": "the restore template has a leaf for everything a checkpoint may hold: an attribute that solver_state saves, that is None on a fresh solver and that some method later sets to a value (the policy of the value-iteration family) has no template leaf, Orbax skips it, and the stored value is silently not restored",
     "R10.7": "the restore template (a fresh solver's solver_state) has, leaf by leaf, the kind declared in the State/Info dataclass: Orbax casts restored leaves to the template's type (instances of C09 R9.6)",
     "R10.6": "completeness: every field solver_state saves is read back by _restore_state_from_checkpoint, into the attribute it was saved from",
 }
@@ -78,6 +79,8 @@ def run(ctx: Context, col) -> None:
     from .c09 import template_kinds
     for cls in ctx.solvers():
         template_kinds(ctx, cls, col, "R10.7")
+    _template_leaves(ctx, col)
+    col.floor("R10.8", 5)
     col.floor("R10.7", 10)
 
 
@@ -478,3 +481,50 @@ def _problem_config(ctx, col):
             why = f"recording of problem.config is not under `problem is not None` (guards: {chain})"
     col.add("R10.5", "Solver._setup_config", owner.module.relpath, (hits[0].lineno if hits else fn.lineno), ok, why,
             text="self.config.problem = problem.config")
+
+
+# ------------------------------------------------------------------- R10.8
+TEMPLATE_LEAF_EXEMPT = {
+    ("SemiAsyncValueIteration", "batch_order"): "its only non-None writer, _reorder_batches, is dead code (C06 R6.6 keeps it so)",
+}
+
+
+def _template_leaves(ctx, col):
+    from ..effects import is_self_attr
+    from .c09 import restore_paths, save_paths
+
+    for cls in ctx.solvers():
+        _so, _sfn, spaths, _c = save_paths(ctx, cls)
+        _ro, rfn, _rp, _x = restore_paths(ctx, cls)
+        for attr in sorted(a for a in spaths if not a.startswith("<")):
+            # the initialiser that decides what a fresh solver holds: the most-derived one that writes the attribute
+            first = None
+            for owner in ctx.ct.mro(cls):
+                fn = owner.methods.get("_initialize_solver_state_elements")
+                ws = [st for st in ast.walk(fn) if isinstance(st, ast.Assign) and any(is_self_attr(t, attr) for t in st.targets)] if fn else []
+                if ws:
+                    first = (owner, fn, ws[-1])
+                    break
+            if first is None:
+                continue
+            owner0, fn0, st0 = first
+            fresh_none = isinstance(st0.value, ast.Constant) and st0.value.value is None
+            later = None
+            for owner in ctx.ct.mro(cls):
+                for fn in owner.methods.values():
+                    if fn is rfn or fn.name in ("_restore_state_from_checkpoint", "_initialize_solver_state_elements", "__init__"):
+                        continue
+                    for st in ast.walk(fn):
+                        if isinstance(st, ast.Assign) and any(is_self_attr(t, attr) for t in st.targets) \
+                                and not (isinstance(st.value, ast.Constant) and st.value.value is None):
+                            later = later or (owner, fn, st)
+            ex = TEMPLATE_LEAF_EXEMPT.get((cls.name, attr))
+            bad = fresh_none and later is not None and ex is None
+            col.add("R10.8", f"{cls.name}.{attr}", owner0.module.relpath, st0.lineno, not bad,
+                    f"`{attr}` has a template leaf on a fresh solver" if not fresh_none else
+                    (f"`{attr}` is None on a fresh solver and stays None in every checkpoint" if later is None else
+                     f"exempt: {ex}" if ex else
+                     f"`{attr}` is None on a fresh solver but {later[0].name}.{later[1].name} sets it (`{norm_text(later[2])[:60]}`) and solver_state "
+                     "saves it: restore() / load_checkpoint() use the fresh solver's state as the StandardRestore template, Orbax skips the None "
+                     "leaf, and the stored value comes back as None"),
+                    text=f"template leaf {attr}")
